@@ -105,6 +105,72 @@ def run_case(case):
     return res
 
 
+# ---- cost-model boundary grid: one renamable / hoistable thing per tiny module, name length x number of uses around break-even ---------
+NAMES = {1: 'q', 2: 'qz', 3: 'qzv', 4: 'qzvk', 5: 'qzvkw', 6: 'qzvkwx', 7: 'qzvkwxy', 8: 'qzvkwxyj', 10: 'qzvkwxyjmn', 14: 'qzvkwxyjmnoprs'}
+BUILTINS_BY_LEN = {3: 'len', 4: 'dict', 5: 'print', 6: 'sorted', 7: 'reversed', 8: 'callable', 9: 'enumerate', 10: 'isinstance'}
+
+
+def grid_modules():
+    """(tag, option, source). Names the grid does not vary are single letters already or listed in __all__, so nothing else can pay for a loss."""
+    out = []
+    for L, name in NAMES.items():
+        for k in range(1, 7):
+            uses = ', '.join([name] * k)
+            out.append(('local_var.L%d.k%d' % (L, k), 'rename_locals', 'def f():\n    %s = g()\n    return [%s]\n' % (name, uses)))
+            out.append(('argument.L%d.k%d' % (L, k), 'rename_locals', 'def f(%s):\n    return [%s]\n' % (name, uses)))
+            out.append(('kwonly_argument.L%d.k%d' % (L, k), 'rename_locals', 'def f(*, %s=1):\n    return [%s]\n' % (name, uses)))
+            out.append(('two_arguments.L%d.k%d' % (L, k), 'rename_locals', 'def f(%s, %s2):\n    return [%s], %s2\n' % (name, name, uses, name)))
+            out.append(('local_import.L%d.k%d' % (L, k), 'rename_locals', 'def f():\n    import %s\n    return [%s]\n' % (name, uses)))
+            out.append(('local_import_twice.L%d.k%d' % (L, k), 'rename_locals', 'def f():\n    try:\n        import %s\n    except ImportError:\n        import %s\n    return [%s]\n' % (name, name, uses)))
+            out.append(('local_from_import.L%d.k%d' % (L, k), 'rename_locals', 'def f():\n    from m import %s\n    return [%s]\n' % (name, uses)))
+            out.append(('local_def.L%d.k%d' % (L, k), 'rename_locals', 'def f():\n    def %s():\n        pass\n    return [%s]\n' % (name, uses)))
+            out.append(('except_as.L%d.k%d' % (L, k), 'rename_locals', 'def f():\n    try:\n        g()\n    except E as %s:\n        return [%s]\n' % (name, uses)))
+            out.append(('comprehension.L%d.k%d' % (L, k), 'rename_locals', 'def f(a):\n    return [[%s] for %s in a]\n' % (uses, name)))
+            out.append(('match_as.L%d.k%d' % (L, k), 'rename_locals', 'def f(a):\n    match a:\n        case [1, 2] as %s:\n            return [%s]\n' % (name, uses)))
+            out.append(('global_var.L%d.k%d' % (L, k), 'rename_globals', '%s = g()\nf([%s])\n' % (name, uses)))
+            out.append(('global_import.L%d.k%d' % (L, k), 'rename_globals', 'import %s\nf([%s])\n' % (name, uses)))
+            out.append(('global_import_twice.L%d.k%d' % (L, k), 'rename_globals', 'try:\n    import %s\nexcept ImportError:\n    import %s\nf([%s])\n' % (name, name, uses)))
+            out.append(('global_def.L%d.k%d' % (L, k), 'rename_globals', 'def %s():\n    pass\nf([%s])\n' % (name, uses)))
+            lit = repr('s' * L)
+            out.append(('hoist_str.L%d.k%d' % (L, k), 'hoist_literals', 'f([%s])\n' % ', '.join([lit] * k)))
+            out.append(('hoist_str_in_function.L%d.k%d' % (L, k), 'hoist_literals', 'def h():\n    return [%s]\n' % ', '.join([lit] * k)))
+            out.append(('hoist_bytes.L%d.k%d' % (L, k), 'hoist_literals', 'f([%s])\n' % ', '.join(['b' + lit] * k)))
+    for k in range(1, 9):
+        for c in ('None', 'True', 'False'):
+            out.append(('hoist_%s.k%d' % (c, k), 'hoist_literals', 'f([%s])\n' % ', '.join([c] * k)))
+            out.append(('hoist_%s_in_function.k%d' % (c, k), 'hoist_literals', 'def h():\n    return [%s]\n' % ', '.join([c] * k)))
+        for L, b in BUILTINS_BY_LEN.items():
+            out.append(('builtin.%s.k%d' % (b, k), 'rename_globals', '__all__ = []\n' + ''.join('%s(%d)\n' % (b, i) for i in range(k))))
+            out.append(('builtin_in_function.%s.k%d' % (b, k), 'rename_globals', '__all__ = ["h"]\ndef h():\n    return [%s]\n' % ', '.join([b] * k)))
+    return out
+
+
+def run_grid_case(case):
+    import python_minifier as pm
+    res = {'status': 'held', 'violations': [], 'nontrivial': [], 'counters': {'grid_pairs': 0}}
+    for tag, option, src in case['items']:
+        for base_name in ('all_off', 'default'):
+            base = common.all_off() if base_name == 'all_off' else common.defaults()
+            on = dict(base)
+            off = dict(base)
+            on[option] = True
+            off[option] = False
+            try:
+                out_on = _minify(pm, src, on)
+                out_off = _minify(pm, src, off)
+            except Exception:
+                continue
+            res['counters']['grid_pairs'] += 1
+            if out_on != out_off:
+                res['nontrivial'].append('grid|%s|%s' % (tag, base_name))
+            if len(out_on) > len(out_off):
+                res['violations'].append({'mech': 'C17.grid.' + tag.split('.')[0], 'detail': 'cost grid %s: %s on (%s base) gives %d bytes > %d: %r vs %r' % (
+                    tag, option, base_name, len(out_on), len(out_off), out_on, out_off), 'witness': {'src': src, 'option': option, 'base': base_name}})
+    if res['violations']:
+        res['status'] = 'violation'
+    return res
+
+
 def gen_cases(tier, seed):
     files = list(common.corpus_files('real'))
     r = common.rng(seed, 'C17')
@@ -130,17 +196,33 @@ def main(tier, seed):
     def on(c, r):
         run.add({'file': c['file'], 'options': c['options']}, r)
     pool.run_cases(cases, 'vf.props.C17:run_case', timeout=120, batch=1, on_result=on, deadline=run.deadline)
+    grid = grid_modules()
+    chunks = [{'items': grid[i:i + 60], 'timeout': 110} for i in range(0, len(grid), 60)]
+
+    def on_g(c, r):
+        slim = {'layer': 'grid', 'tags': [t for t, _, _ in c['items']][:3]}
+        if r.get('status') == 'violation':
+            slim['items'] = c['items']
+        run.add(slim, r)
+    pool.run_cases(chunks, 'vf.props.C17:run_grid_case', timeout=120, batch=1, on_result=on_g, deadline=run.deadline)
     return run.finish(
         rule='pinned corpus of CPython 3.12 stdlib modules (sha256 manifest in corpus/) x 14 size-motivated switches x bases '
              '{all off, default}; non-trivial/distinct = distinct (file, option, base) where the option changed the output at all',
         assumptions=['the pinned corpus stands for "real-world modules"', 'length in characters of the returned str'],
-        min_nontrivial=50, required_counters=['pairs'])
+        min_nontrivial=50, required_counters=['pairs', 'grid_pairs'])
 
 
 def replay(path):
     w = runner.load_replay(path)
     c = w['case']
     wit = w['witness']
+    if c.get('layer') == 'grid':
+        r = run_grid_case({'items': [i for i in c['items'] if i[2] == wit['src']]})
+        print(json.dumps(r, indent=1)[:3000])
+        if r.get('violations'):
+            print('VIOLATION property=%s replay=%s' % (PROP, path))
+            return 1
+        return 0
     r = run_case({'file': c['file'], 'src_b64': base64.b64encode(common.read_text(c['file'])).decode('ascii'), 'options': [wit['option']]})
     print(json.dumps(r, indent=1)[:3000])
     if r.get('violations'):
